@@ -292,12 +292,17 @@ def c17_tape(check, pid, tier, seed):
         "tape_inputs_written_for_another_type": {"cases": int(tot.get("wrong_input_cases", 0)), "rejected_by_the_value_deserialiser": int(tot.get("wrong_input_rejected", 0))},
         "tape_typed_entry_points_only_format_cases": int(tot.get("strict_format_cases", 0)),
         "tape_deserializer_entry_points_used": tot.get("entry_points"),
+        "tape_unwinding_deserializer_callbacks": {"fault_points": int(tot.get("de_panic_points", 0)), "blocks_left_behind_tolerated": int(tot.get("unwind_blocks_left", 0)),
+                                                  "rule": "a callback that panics instead of returning an error must propagate, destroy nothing twice and leave the partial value's pieces exactly as the value's own deserialiser does; "
+                                                          "blocks left behind on unwinding are counted, not reported (C17 speaks of errors, C07 tolerates leaks on unwinding)"},
         "tape_components": {"real_code": ["triomphe's Serialize/Deserialize impls for Arc and UniqueArc", "serde (traits, std impls, de::value deserializers)"],
                        "stub_or_shim": ["Serializer and Deserializer (recording/replaying tape with failure injection)", "the global allocator (ledger)", "payload pieces (identity-tracked)"]},
         "configurations": "A only: serde is absent from the no-default-features build (compiled out, not counted as a pass)",
         "tape_known_findings_matched": known_hit,
         "tape_wall_s": round(wall, 3),
     }
+    if int(tot.get("unwind_blocks_left", 0)) > 0:
+        check.log(f"note: deserialisation through Arc/UniqueArc left {int(tot.get('unwind_blocks_left', 0))} block(s) behind when a deserializer callback unwound (tolerated: C17 speaks of errors, not panics)")
     shutil.rmtree(tmp, ignore_errors=True)
     for info in reported:
         info["props"] = {"C17"}
